@@ -237,7 +237,9 @@ func checkC12(c *Ctx) {
 			}
 		}
 	}
+	jobs = append(jobs, c.zipEqJobs()...)
 	jobs = append(jobs, c.lexerFlagJobs()...)
+	c.BoundsText = append(c.BoundsText, "-zip table equivalence (unbounded in input length): for corpus grammars incl. the recovery and conflict corpus and a grammar with the error symbol in the middle of an alternative, the tables decoded by the -zip build equal the plain build's tables entry by entry (symbolic state, terminal and nonterminal), incl. the recovery flag")
 	c.BoundsText = append(c.BoundsText, fmt.Sprintf("parser: corpus grammars generated with -zip, -debug_parser, -v, -no_lexer and all together; token sequences of length 0..%d; each flagged build is compared with the same reference canonical LR(1) machine (built by /verif) as the flag-free build in C02/C05: same verdict, same reduction sequence, same offending token, same expected-token set; hence flagged and flag-free builds agree with each other", maxN),
 		"-zip: the tables are produced by running the generated init natively (gzip and gob are not symbolically executable) and injected into the engine; the decode loop after gob.Decode is therefore exercised concretely, not symbolically",
 		"debug flags: fmt.Printf and friends are stubs that evaluate their arguments (explicit String() calls are executed) and print nothing; output on stdout is outside the claim")
@@ -287,6 +289,89 @@ func (c *Ctx) lexerFlagJobs() []Job {
 			Target: t,
 			Run:    SymRun{Harness: "VerifC08Step", Params: map[string]int{"N": n}, LoopBound: 16, LoopBounds: map[string]int{"Scan": n + 3}},
 			Bounds: fmt.Sprintf("Scan generated with -debug_lexer on abstract tables, every source of %d bytes: same position/tiling specification as the plain build (C08)", n),
+		})
+	}
+	return jobs
+}
+
+// GMidError: the error symbol in the middle of an alternative (outside C07's domain, inside
+// C12's: the flags must not change which states recover).
+var GMidError = &SynGrammar{Name: "G23", Why: "error symbol in the middle of an alternative", Lex: stdLex + "id : 'a'-'z' ;\n",
+	Prods: []Prod{
+		P("Stmts", NT("Stmts"), NT("Stmt")), P("Stmts", NT("Stmt")),
+		P("Stmt", Lit("let"), Tok("id"), Lit("="), Tok("id"), Lit(";")), P("Stmt", Lit("let"), Err(), Lit(";")),
+	}}
+
+// zipEqJobs: the tables of the -zip build (decoded natively) against the plain build's tables.
+func (c *Ctx) zipEqJobs() []Job {
+	var gs []*SynGrammar
+	gs = append(gs, GMidError)
+	gs = append(gs, RecoveryCorpus...)
+	gs = append(gs, ConflictCorpus[0], ConflictCorpus[3])
+	if c.Quick() {
+		gs = append(gs, SynCorpus[0], SynCorpus[1])
+	} else {
+		gs = append(gs, SynCorpus...)
+		gs = append(gs, ConflictCorpus...)
+	}
+	var jobs []Job
+	seen := map[string]bool{}
+	for _, g0 := range gs {
+		if seen[g0.Name] {
+			continue
+		}
+		seen[g0.Name] = true
+		gz := *g0
+		gz.Name = g0.Name + "_zipeq_zip"
+		gz.Flags = append(append([]string{}, g0.Flags...), "-zip")
+		tz, err := c.parserTarget(&gz, false, append(append([]string{}, parserHarness...), "genparser/dump.go")...)
+		if err != nil {
+			c.Inconclusive = append(c.Inconclusive, err.Error())
+			continue
+		}
+		d, err := c.nativeTables(tz)
+		if err != nil {
+			c.Inconclusive = append(c.Inconclusive, fmt.Sprintf("%s: native table dump failed: %v", gz.Name, err))
+			continue
+		}
+		gp := *g0
+		gp.Name = g0.Name + "_zipeq_plain"
+		tp, err := c.parserTarget(&gp, false, append(append([]string{}, parserHarness...), "genparser/zipeq.go")...)
+		if err != nil {
+			c.Inconclusive = append(c.Inconclusive, err.Error())
+			continue
+		}
+		var b strings.Builder
+		b.WriteString("//go:build verif\n\npackage parser\n\nvar verifZipCanRecover = []bool{")
+		for _, r := range d.CanRecover {
+			fmt.Fprintf(&b, "%v, ", r)
+		}
+		b.WriteString("}\nvar verifZipActions = [][][2]int{\n")
+		for _, row := range d.Actions {
+			b.WriteString("\t{")
+			for _, a := range row {
+				fmt.Fprintf(&b, "{%d, %d}, ", a.K, a.V)
+			}
+			b.WriteString("},\n")
+		}
+		b.WriteString("}\nvar verifZipGoto = [][]int{\n")
+		for _, row := range d.Goto {
+			b.WriteString("\t{")
+			for _, x := range row {
+				fmt.Fprintf(&b, "%d, ", x)
+			}
+			b.WriteString("},\n")
+		}
+		b.WriteString("}\n")
+		f := filepath.Join(tp.ModDir, "_verifdata", "zipdata.go")
+		os.WriteFile(f, []byte(b.String()), 0o644)
+		tp.Harness = append(tp.Harness, f)
+		jobs = append(jobs, Job{
+			Name:           "zip-tables " + g0.Name,
+			Target:         tp,
+			Run:            SymRun{Harness: "VerifC12ZipEq", LoopBound: 4000},
+			Bounds:         fmt.Sprintf("grammar %s (%s): every state, every terminal column and every nonterminal column (all symbolic) of the plain build's tables against the tables decoded by the -zip build's init", g0.Name, g0.Why),
+			RequiredCovers: []string{"end"},
 		})
 	}
 	return jobs
